@@ -94,17 +94,8 @@ def run(pid, tier, seed, njobs=None):
     t0 = time.time()
     verdict = lib.Verdict(pid)
     rng = random.Random(seed)
-    # (A) the specification: safety + liveness of the tree-bin lock protocol
+    # (A) the specification: run at the end (lib.add_spec_coverage)
     spec_cov = {}
-    for cfg, live in (("MC_TreeBinLock", False), ("MC_TreeBinLock_live", True)):
-        if not os.path.exists(os.path.join(lib.SPEC, cfg + ".cfg")):
-            continue
-        r = lib.run_tlc("MC_TreeBinLock", cfg=cfg + ".cfg", workers=4, timeout=600 if tier == "quick" else 3000, coverage=True)
-        ok = "No error has been found" in r["out"]
-        spec_cov[cfg] = {"states": r["states"], "distinct": r["distinct"], "ok": ok, "wall_s": round(r["wall"], 1),
-                         "actions": {k: v[1] for k, v in lib.tlc_coverage(r["out"]).items()}}
-        if not ok:
-            raise lib.ToolError("TLC reports an error on the specification %s (the model, not the code, is wrong or was changed):\n%s" % (cfg, r["out"][-2500:]))
     # (B) the code
     n = njobs or (900 if tier == "quick" else 12000)
     jobs = []
@@ -149,15 +140,15 @@ def run(pid, tier, seed, njobs=None):
                           {"job": job2, "summary": e, "stuck": stuck[-1:] if stuck else []},
                           "job %s ends %s (panics=%d, bin locks held=%d, tree locks held=%d) %s"
                           % (rid, e["outcome"], e["panics"], e["locked"], e["treelocked"], json.dumps(stuck[-1:])[:300]))
-    cov = {"states": max(v["states"] + sum(c["states"] for c in spec_cov.values()), 1),
-           "transitions": max(v["states"] + sum(c["states"] for c in spec_cov.values()), 1),
+    cov = {"states": max(v["states"], 1), "transitions": max(v["states"], 1),
            "traces_validated_against_impl": len(v["accepted"]), "evaluations": len(jobs),
            "distinct_nontrivial": sum(1 for p in projected if byid[p["id"]][1]["nsteps"] > 50),
            "rule": "scheduled runs of 2-4 threads: readers+writers on a tree bin (rotations, contended root lock), table-initialisation "
                    "race, per-key and whole-map operations across resizes; random / PCT / sticky / round-robin schedules; "
                    "non-trivial = more than 50 scheduled steps",
            "samples": [{"job": jobs[0]["threads"], "outcome": projected[0]["ev"][0]}] if projected else [],
-           "outcomes": outcomes, "park_events": parks, "spin_events": spins, "spec": spec_cov, "rejected": len(v["rejected"])}
+           "outcomes": outcomes, "park_events": parks, "spin_events": spins, "rejected": len(v["rejected"])}
+    lib.add_spec_coverage(cov, pid, tier)
     rc = verdict.finish()
     lib.write_evidence(pid, tier, seed, "model_checking", cov, time.time() - t0, len(verdict.violations),
                        ["fairness as the property assumes it", "std::thread::park/unpark token semantics", "parking_lot mutex",
